@@ -10,12 +10,12 @@ from harness import common, gens
 from harness.common import Stream, hexb
 
 PID = "C17"
-LEAN_MODULES = ["Astm.Proofs.C17", "Astm.State.C17"]
+LEAN_MODULES = ["Astm.Proofs.C17", "Astm.State.C17", "Astm.Surface.C17"]
 THEOREMS = [
     "Astm.C17.dotstar_reaches_lf_free_prefixes", "Astm.C17.header_patterns_match_exactly_their_tokens",
     "Astm.C17.token_sets_eq_contract", "Astm.C17.selects_the_named_model", "Astm.C17.default_when_no_token",
     "Astm.C17.order_independent", "Astm.C17.tokens_do_not_overlap", "Astm.C17.example_headers",
-    "Astm.C17.anchored_code_keeps_no_other_state",
+    "Astm.C17.anchored_code_keeps_no_other_state", "Astm.C17.anchored_code_keeps_its_signatures",
 ]
 RULE = ("every documented model token of every instrument module x header fields drawn from a vocabulary free of model "
         "tokens (other sender components, receiver, comments, versions, timestamps, bytes >= 0x80) x random following "
